@@ -44,6 +44,10 @@ TEXT = {
          "Gen_Pack enumerates struct types from a descriptor grammar with tags (rename, dotted, inline, ignore) and extreme values; the harness builds the real types with reflect, merges the value into an empty config, compares the generic view with Pack's tree, unpacks into a zero value and compares modulo nil~empty; the listed finding (inline map next to named fields) is modelled as a deviation with its exact outcome."),
  "C11": ("readers", "TLA+ readers model (UcfgReaders: N reader processes, per-call cache, interleaved atomic steps) checked by TLC for SharedUnchanged/ResultIsSequential; sequential purity by a name-free deep hash; concurrent goroutines on a fresh config compared with the specification's answers; Go race detector as observer",
          "TLC explores every interleaving of three readers with different resolvers and refutes the 'memo on the shared value' deviation; on the code every read operation must leave a reflective deep hash of the config unchanged, a later read under a different resolver must not be served an earlier answer, and 8-32 goroutines reading a fresh shared config must each obtain the sequential result that UcfgVarExp predicts - also in a -race build."),
+ "C18": ("loaders", "expected data fixed by the TLA+ normalisation spec (with / without separator); exhaustive bounded documents and random documents loaded through the three front-ends (in memory and from files) and compared with the spec and with each other; random loads trace-validated by TLC",
+         "The decoders are outside the specification; it generates the documents and fixes what all three must unpack to. Every document is rendered twice and loaded 24 ways; *WithFile loads must equal in-memory loads and an error about a setting must name the file (and no source for in-memory loads); random documents with YAML-1.1-hostile strings and boundary numbers are recorded and validated by Trace_Normalize."),
+ "C07": ("robust", "totality of the specified transition functions checked by TLC (NoPanic invariants of the store machine and the value parser, deviations refuted) + exhaustive short parser strings + mutation/enumeration with runtime observers (recover, child processes with deadline, goroutine count, allocation bound)",
+         "Every transition function of the specification returns a value or Err for every argument (TLC: no 'panic' outcome on the Ideal layer, and the repaired panics are refuted); on the code the inputs the property quantifies over are enumerated or mutated and every call is observed: recovered panic, dead or hanging child process, leaked goroutine, list longer than MaxIdx+1. The decoders themselves are explored by mutation only (DESIGN.md section 8)."),
 }
 NOTE = "bounded universes (stated in evidence.rule); projection through the public API; TLC/JVM/Go runtime trusted; Ideal layer + named deviations listed in known_findings.json"
 
@@ -57,6 +61,10 @@ m = dict(
                source_commits=[], add_only=True),
     
     engines=[
+        dict(name="robust", path="harness/cmd/ucfgconf/fam_robust.go", serves_properties=["C07"],
+             kind_free_text="runtime observers (recover, crash-isolated children, goroutine count, allocation bound) over enumerated and mutated inputs; TLC NoPanic invariants in MC_Store and Gen_Parse"),
+        dict(name="loaders", path="spec/Gen_Loaders.tla", serves_properties=["C18"],
+             kind_free_text="documents generated from UcfgNormalize universes; harness/cmd/ucfgconf/fam_loaders.go (yaml/json/hjson, in memory and files)"),
         dict(name="readers", path="spec/UcfgReaders.tla", serves_properties=["C11"],
              kind_free_text="TLA+ interleaving model of concurrent reads with per-call cache; harness/cmd/ucfgconf/fam_readers.go + deephash.go; race build"),
         dict(name="reify", path="spec/UcfgReify.tla", serves_properties=["C04", "C13", "C14"],
